@@ -57,7 +57,8 @@ def m_source(base: str, order: int) -> str:
     if order == 2:
         # functions among themselves, classes among themselves (a subclass stays after its base class)
         extra = decls[NFIX:]
-        decls = [decls[1], decls[0], decls[8]] + extra + [decls[7], decls[6], decls[4], decls[5], decls[2], decls[3]]
+        # (the class whose method has a type variable of its own comes before every generic class here, after one in the other order)
+        decls = [decls[1], decls[0], decls[8]] + extra + [decls[6], decls[7], decls[4], decls[5], decls[2], decls[3]]
     # an internal class of another library as superclass; an unrelated module "xargparse" may define a class of that name
     decls.append("class UsesForeignInternal(argparse._ActionsContainer):\n    def own_member(self) -> int:\n        ...\n")
     # an alias of M's own class, used as superclass and as type; an unrelated module may bind the same alias name to a class of its own
